@@ -72,6 +72,10 @@ Good06 == TwoPages06 \cup
 D0 == CHOOSE d \in DataSets06 : TRUE
 Bad06 == {[tree |-> Tree06(LayA, <<InsertE("title", StrL("x"), 1), InsertE("nope", StrL("y"), 1)>>, Alias("main")), page |-> "home", d |-> D0, tags |-> <<"c06", "undefined-insert">>],
           [tree |-> Tree06(LayA, <<InsertB("nope", <<H("y")>>, 1)>>, Ref("layouts/main")), page |-> "home", d |-> D0, tags |-> <<"c06", "undefined-insert">>],
+          \* every reserve is filled and one more insert names no reserve, sorted before / between / after the defined names
+          [tree |-> Tree06(LayA, <<InsertE("title", StrL("x"), 1), InsertB("content", <<H("c")>>, 1), InsertE("zz-footer", StrL("y"), 1)>>, Alias("main")), page |-> "home", d |-> D0, tags |-> <<"c06", "undefined-insert">>],
+          [tree |-> Tree06(LayA, <<InsertE("aa-first", StrL("y"), 1), InsertE("title", StrL("x"), 1), InsertB("content", <<H("c")>>, 1)>>, Alias("main")), page |-> "home", d |-> D0, tags |-> <<"c06", "undefined-insert">>],
+          [tree |-> Tree06(LayA, <<InsertE("title", StrL("x"), 1), InsertB("middle", <<H("m")>>, 1), InsertB("content", <<H("c")>>, 1)>>, Alias("main")), page |-> "home", d |-> D0, tags |-> <<"c06", "undefined-insert">>],
           [tree |-> Tree06(LayA, <<InsertE("title", StrL("x"), 1), InsertB("title", <<H("y")>>, 1)>>, Alias("main")), page |-> "home", d |-> D0, tags |-> <<"c06", "duplicate-insert">>],
           [tree |-> Tree06(LayA, <<If(<<Br(BoolL(TRUE), <<InsertE("title", StrL("x"), 1)>>)>>, NoElse, 1), InsertE("title", StrL("z"), 1)>>, Alias("main")), page |-> "home", d |-> D0, tags |-> <<"c06", "duplicate-insert">>],
           [tree |-> [n \in {"home"} |-> Tpl(Alias("main"), <<InsertE("title", StrL("x"), 1)>>)], page |-> "home", d |-> D0, tags |-> <<"c06", "missing-layout">>],
@@ -107,15 +111,17 @@ CompBoth == <<H("{"), Slot("", 1), H("/"), Slot("x", 1), H("/"), P(Var("n")), H(
 CompTwo == <<P(Var("a")), H("-"), P(Var("b")), H("-"), P(Var("c"))>>
 \* components that assign: the assignment lives in the component's own scope (C04) and every use starts afresh (C07)
 \* a component that reads what surrounds the place of use (the caller's loop variable, its loop object, its variables)
+\* slot placeholders as the very first and the very last statement of the component file
+CompSlotFirst == <<Slot("head", 1), H("|"), Slot("", 1), H("|"), Slot("foot", 1)>>
 CompEcho == <<H("<"), P(Var("x")), H(":"), P(Dot(Var("loop"), "iter")), H(":"), P(Var("who")), H(">")>>
 CompSetter == <<Assign("t", StrL("in"), 1), H("("), P(Var("t")), H(")")>>
 CompBump == <<Assign("cnt", Bin("+", Var("cnt"), IntL(1)), 1), P(Var("cnt")), Slot("", 1)>>
 Comps07 == [n \in {"components/plain", "components/def", "components/named", "components/both", "components/two", "card",
-                   "components/setter", "components/bump", "components/echo"} |->
+                   "components/setter", "components/bump", "components/echo", "components/edges"} |->
               CASE n = "components/plain" -> Tpl(NoUse, CompPlain) [] n = "components/def" -> Tpl(NoUse, CompDef)
                 [] n = "components/named" -> Tpl(NoUse, CompNamed) [] n = "components/both" -> Tpl(NoUse, CompBoth)
                 [] n = "components/two" -> Tpl(NoUse, CompTwo)
-                [] n = "components/echo" -> Tpl(NoUse, CompEcho)
+                [] n = "components/echo" -> Tpl(NoUse, CompEcho) [] n = "components/edges" -> Tpl(NoUse, CompSlotFirst)
                 [] n = "components/setter" -> Tpl(NoUse, CompSetter) [] n = "components/bump" -> Tpl(NoUse, CompBump)
                 [] n = "card" -> Tpl(NoUse, <<H("card:"), P(Var("name"))>>)]
 Uses == {Comp(Alias("plain"), <<Arg("name", StrL("Ann"))>>, <<>>, 1), Comp(Alias("plain"), <<Arg("name", Var("who"))>>, <<>>, 1),
@@ -128,6 +134,7 @@ Uses == {Comp(Alias("plain"), <<Arg("name", StrL("Ann"))>>, <<>>, 1), Comp(Alias
          Comp(Alias("both"), <<Arg("n", StrL("b"))>>, <<Sl("x", <<H("X")>>), Sl("", <<H("D")>>)>>, 1),
          Comp(Alias("both"), <<Arg("n", StrL("c"))>>, <<Sl("", <<Comp(Alias("plain"), <<Arg("name", StrL("in"))>>, <<>>, 1)>>)>>, 1),
          Comp(Ref("card"), <<Arg("name", Var("who"))>>, <<>>, 1),
+         Comp(Alias("edges"), <<>>, <<Sl("head", <<H("H")>>)>>, 1), Comp(Alias("edges"), <<>>, <<Sl("foot", <<H("F")>>), Sl("", <<H("D")>>), Sl("head", <<P(Var("who"))>>)>>, 1),
          \* an argument whose value is nil, empty or falsy is bound like any other
          Comp(Alias("plain"), <<Arg("name", NilL)>>, <<>>, 1), Comp(Alias("two"), <<Arg("a", StrL("")), Arg("b", IntL(0)), Arg("c", BoolL(FALSE))>>, <<>>, 1),
          Comp(Alias("named"), <<Arg("n", NilL), Arg("big", NilL)>>, <<Sl("head", <<H("h")>>)>>, 1)}
